@@ -333,7 +333,7 @@ impl StringGenerator {
             let len = if self.options.compress && !self.options.preserve_line_length {
                 let mut last = area.get_width() - 1;
                 let last_attr = layer.get_char((last, y)).attribute;
-                if last_attr.background_color == 0 {
+                if buf.palette.get_rgb(last_attr.background_color) == (0, 0, 0) && !last_attr.is_blinking() {
                     while last > area.left() {
                         let c = layer.get_char((last, y));
 
@@ -542,7 +542,7 @@ impl StringGenerator {
                     // rle is always >= x + 1 but "x - 1" may overflow.
                     rle -= 1;
                     rle -= x;
-                    if self.options.use_cursor_forward && line[x].ch == ' ' && line[x].cur_state.bg_idx == 0 && !line[x].cur_state.is_blink {
+                    if self.options.use_cursor_forward && line[x].ch == ' ' && line[x].cur_state.bg.get_rgb() == (0, 0, 0) && !line[x].cur_state.is_blink {
                         let fmt = &format!("\x1B[{}C", rle + 1);
                         let output = fmt.as_bytes();
                         // moving the cursor does not wrap to the next line like printing the last column does
